@@ -72,6 +72,9 @@ type c14Scenario struct {
 	// exactly the backend's. Otherwise entries come and go: a list must hold every entry that was attached the whole
 	// time and nothing that was never attached to the object.
 	StaticCD bool `json:"static_cd"`
+	// Waits: clients wait (WaitTrigger) for check results that arrive during the wait; the update menu reloads the objects
+	// (rebuild, restart) but never makes the backend fail (lmd ends a wait with the error then)
+	Waits bool `json:"waits"`
 	// Probes: requests the generated lock coverage matrix reports as reading a table they do not lock (client kinds
 	// "probe0", "probe1", ... send them, so that the race detector may show the concurrent access)
 	Probes   []c14Probe `json:"probes,omitempty"`
@@ -80,9 +83,11 @@ type c14Scenario struct {
 
 var c14ClientKinds = []string{"hosts", "hostsfilter", "services", "stats", "sums", "hostsbygroup", "servicesbygroup", "servicesbyhostgroup",
 	"waithost", "waitservice", "waittable", "waitmet", "waitgroups", "virtcols", "comments", "downtimes", "hostgroups", "servicegroups",
-	"timeperiods", "sites", "status", "statsref", "filterref", "sortref", "svclists", "comlists", "downlists", "bygrouplists"}
+	"timeperiods", "sites", "status", "statsref", "filterref", "sortref", "svclists", "comlists", "downlists", "bygrouplists",
+	"waitrealhost", "waitrealsvc"}
 
-var c14PartialKinds = map[string]bool{"waithost": true, "waitservice": true, "waittable": true, "waitmet": true, "waitgroups": true}
+var c14PartialKinds = map[string]bool{"waithost": true, "waitservice": true, "waittable": true, "waitmet": true, "waitgroups": true,
+	"waitrealhost": true, "waitrealsvc": true}
 
 var c14UpdaterKinds = []string{"delta", "periodic", "minute", "full", "scan", "rebuild", "restart", "comments", "downup", "broken", "idle"}
 
@@ -111,6 +116,11 @@ type c14Result struct {
 	ListObs   [][][]int64 `json:"list_obs"`
 	ListBad   []string    `json:"list_bad"`
 	ListTotal int         `json:"list_total"`
+	// WaitObs: distinct [elapsed ms, WaitTimeout ms, margin ms, threshold of the WaitCondition, served version of the
+	// WaitObject (-1: its backend is listed as failed)] of WaitTrigger requests that really waited (violations first)
+	WaitObs   [][]int64 `json:"wait_obs"`
+	WaitBad   []string  `json:"wait_bad"`
+	WaitTotal int       `json:"wait_total"`
 }
 
 // ---- stamps -------------------------------------------------------------------------------------
@@ -305,6 +315,8 @@ type c14Peer struct {
 	comIDs  []int64 // mutator goroutine only
 	downIDs []int64
 	svcKeys [][2]string // the services of the backend (host, description)
+	// odd while the update loop makes the backend fail / the peer broken (a wait may then end early with an error)
+	disturb atomic.Int64
 
 	// what the backend's comments (0) / downtimes (1) attach to each host ("host") and service ("host;description"):
 	// must = attached from the start and never removed, may = must + everything the mutator ever attached
@@ -389,6 +401,9 @@ type c14World struct {
 	listSeen   map[string]bool
 	listBad    [][][]int64
 	listGood   [][][]int64
+	waitSeen   map[string]bool
+	waitBad    [][]int64
+	waitGood   [][]int64
 	partialRun bool // a scenario with single-row updaters (WaitTrigger clients, timeperiod flips): epochs may differ inside a table
 }
 
@@ -733,6 +748,7 @@ func (w *c14World) updater(cp *c14Peer, rnd *vRand, wg *sync.WaitGroup) {
 				_ = data.updateDeltaCommentsOrDowntimes(ctx, TableDowntimes)
 			}
 		case "downup":
+			cp.disturb.Add(1)
 			cp.backend.SetMode(vModeRefuse)
 			if last := peer.lastOnline.Get(); last > 0 && (w.sc.Epochs || rnd.chance(2, 3)) {
 				peer.lastOnline.Set(last - float64(w.lmd.Config.StaleBackendTimeout) - 100)
@@ -741,11 +757,14 @@ func (w *c14World) updater(cp *c14Peer, rnd *vRand, wg *sync.WaitGroup) {
 			time.Sleep(time.Duration(rnd.intn(20)) * time.Millisecond)
 			cp.backend.SetMode(vModeOK)
 			periodic()
+			cp.disturb.Add(1)
 		case "broken":
+			cp.disturb.Add(1)
 			peer.setBroken("c14: scripted")
 			time.Sleep(time.Duration(rnd.intn(10)) * time.Millisecond)
 			peer.lastFullUpdate.Set(currentUnixTime() - float64(BrokenPeerGraceTimeSeconds) - 10)
 			periodic()
+			cp.disturb.Add(1)
 		case "idle":
 			// the next client query spins the peer up from its own goroutine (ResumeFromIdle)
 			peer.idling.Store(true)
@@ -785,6 +804,11 @@ type c14Query struct {
 	text    string
 	variant int
 	width   int
+	// WaitTrigger requests that really wait (waitreal*): the object waited for ("p1/h/vhost2", "p1/s/vhost1/vsvc1"), the
+	// version its WaitCondition `current_attempt >= threshold` asks for, and what the answer showed for it
+	waitKey   string
+	threshold int64
+	waitSeen  int64
 	bound  int64 // hostsfilter: Filter: latency < bound
 	single bool  // Backends header with exactly one backend
 }
@@ -853,7 +877,7 @@ func (w *c14World) buildQuery(kind string, rnd *vRand) *c14Query {
 		query.text = "GET " + kind + "\nColumns: peer_key host_name description " + group + " display_name host_alias " + c14EpochCol + " host_" + c14EpochCol +
 			" " + stamps + " " + hstamps + "\n" + backends + c14Tail
 		query.width = 8 + 2*nst
-	case "waithost":
+	case "waithost", "waitrealhost": // (waitreal*: only for the lock order; the requests are built by waitReal)
 		query.text = "GET hosts\nColumns: peer_key name alias " + c14EpochCol + " " + stamps + "\n" + backends + wait(host, "current_attempt > 900000000") + c14Tail
 		query.width = 4 + nst
 	case "waitmet":
@@ -862,7 +886,7 @@ func (w *c14World) buildQuery(kind string, rnd *vRand) *c14Query {
 	case "waittable":
 		query.text = "GET hosts\nColumns: peer_key name alias " + c14EpochCol + " " + stamps + "\n" + backends + wait("", "state = 5") + c14Tail
 		query.width = 4 + nst
-	case "waitservice":
+	case "waitservice", "waitrealsvc":
 		query.text = "GET services\nColumns: peer_key host_name description display_name host_alias " + c14EpochCol + " host_" + c14EpochCol +
 			" " + stamps + " " + hstamps + "\n" + backends + wait("vhost1;vsvc1", "current_attempt > 900000000") + c14Tail
 		query.width = 7 + 2*nst
@@ -1023,9 +1047,9 @@ func (w *c14World) checkVersion(seen *c14Seen, key string, ver, limit int64) {
 // expectedRows is the number of rows a peer that is not listed as failed contributes to an unfiltered query.
 func (w *c14World) expectedRows(cp *c14Peer, kind string) int {
 	switch kind {
-	case "hosts", "hostsbygroup", "virtcols", "waithost", "waittable", "waitmet":
+	case "hosts", "hostsbygroup", "virtcols", "waithost", "waittable", "waitmet", "waitrealhost":
 		return cp.nHosts
-	case "services", "servicesbygroup", "servicesbyhostgroup", "waitservice", "filterref", "sortref", "svclists":
+	case "services", "servicesbygroup", "servicesbyhostgroup", "waitservice", "filterref", "sortref", "svclists", "waitrealsvc":
 		return cp.nSvcs
 	case "hostgroups", "servicegroups":
 		return 1
@@ -1232,7 +1256,7 @@ func (w *c14World) checkAnswer(query *c14Query, code int, body []byte, seen *c14
 		}
 		perPeer[pid]++
 		switch kind {
-		case "hosts", "hostsfilter", "hostsbygroup", "waithost", "waittable", "waitmet":
+		case "hosts", "hostsfilter", "hostsbygroup", "waithost", "waittable", "waitmet", "waitrealhost":
 			off := 2
 			if kind == "hostsbygroup" {
 				off = 3
@@ -1251,6 +1275,9 @@ func (w *c14World) checkAnswer(query *c14Query, code int, body []byte, seen *c14
 			addTo(epochs, pid+"/h", epoch)
 			w.addVec(kind, vec, row)
 			w.checkVersion(seen, pid+"/h/"+name, vec[0], cp.hver[idx].Load())
+			if query.waitKey == pid+"/h/"+name {
+				query.waitSeen = vec[2]
+			}
 			if kind == "hostsfilter" && vec[4] >= query.bound {
 				w.mu.Lock()
 				if len(w.res.FilterViol) < 8 {
@@ -1258,9 +1285,9 @@ func (w *c14World) checkAnswer(query *c14Query, code int, body []byte, seen *c14
 				}
 				w.mu.Unlock()
 			}
-		case "services", "servicesbygroup", "servicesbyhostgroup", "waitservice":
+		case "services", "servicesbygroup", "servicesbyhostgroup", "waitservice", "waitrealsvc":
 			off := 3
-			if kind != "services" && kind != "waitservice" {
+			if kind != "services" && kind != "waitservice" && kind != "waitrealsvc" {
 				off = 4
 			}
 			host, _ := row[1].(string)
@@ -1284,6 +1311,9 @@ func (w *c14World) checkAnswer(query *c14Query, code int, body []byte, seen *c14
 			w.addVec(kind, vec, row)
 			w.addVec(kind+":host", hvec, row)
 			w.checkVersion(seen, pid+"/s/"+host+"/"+desc, vec[0], int64(1)<<60)
+			if query.waitKey == pid+"/s/"+host+"/"+desc {
+				query.waitSeen = vec[2]
+			}
 			w.checkVersion(seen, pid+"/h/"+host, hvec[0], cp.hver[hidx].Load())
 		case "comments", "downtimes":
 			hgen, hgok := c14GenOf(row[3])
@@ -1402,12 +1432,138 @@ func (w *c14World) checkAnswer(query *c14Query, code int, body []byte, seen *c14
 	w.mu.Unlock()
 }
 
+const (
+	c14WaitTimeoutMs = 1800
+	c14WaitMarginMs  = 300
+)
+
+// waitReal: "send a command, wait for its effect, show the object". Two identical WaitTrigger requests for ONE
+// object of one backend are sent at the same moment (their WaitCondition goroutines then refresh the object from
+// the backend in step, every 200 ms, concurrently with each other and with the update loop), the condition
+// `current_attempt >= threshold` is far away; after one or two refresh rounds (plus a few ms) this goroutine gives the
+// object a new check result with version = threshold in the backend. Each answer goes through the usual checks
+// (whole rows!) and is recorded with its duration: one that arrives before the timeout must show the object with a
+// version >= threshold. Waits during which the update loop made the backend fail are not recorded (lmd ends such a
+// wait with the error).
+func (w *c14World) waitReal(kind string, rnd *vRand, seen *c14Seen) {
+	cp := vPick(rnd, w.peers)
+	table, vers, idx := "hosts", cp.hver, rnd.intn(cp.nHosts)
+	object, key := fmt.Sprintf("vhost%d", idx+1), ""
+	columns := "peer_key name alias " + c14EpochCol + " " + c14StampColumnNames("")
+	width := 4 + len(c14StampCols)
+	if kind == "waitrealsvc" {
+		if len(cp.svcKeys) == 0 {
+			return
+		}
+		table, vers, idx = "services", cp.sver, rnd.intn(len(cp.svcKeys))
+		object = cp.svcKeys[idx][0] + ";" + cp.svcKeys[idx][1]
+		key = cp.id + "/s/" + cp.svcKeys[idx][0] + "/" + cp.svcKeys[idx][1]
+		columns = "peer_key host_name description display_name host_alias " + c14EpochCol + " host_" + c14EpochCol + " " +
+			c14StampColumnNames("") + " " + c14StampColumnNames("host_")
+		width = 7 + 2*len(c14StampCols)
+	} else {
+		key = cp.id + "/h/" + object
+	}
+	threshold := vers[idx].Load() + 1000
+	text := fmt.Sprintf("GET %s\nColumns: %s\nBackends: %s\nWaitTrigger: all\nWaitObject: %s\nWaitCondition: current_attempt >= %d\nWaitTimeout: %d\n%s",
+		table, columns, cp.id, object, threshold, c14WaitTimeoutMs, c14Tail)
+	disturbed := cp.disturb.Load()
+	start := time.Now()
+	type answer struct {
+		code    int
+		body    []byte
+		err     error
+		elapsed time.Duration
+	}
+	const parallel = 2
+	answers := make(chan answer, parallel)
+	for range parallel {
+		go func() {
+			code, body, err := w.roundTrip(text)
+			answers <- answer{code, body, err, time.Since(start)}
+		}()
+	}
+	// the new check result arrives around a refresh round of the waiting goroutines
+	delay := time.Duration(200*(1+rnd.intn(2)))*time.Millisecond + time.Duration(rnd.intn(6000))*time.Microsecond
+	time.Sleep(delay)
+	cp.backend.WithLock(func() {
+		ver := vers[idx].Load() + 1
+		if ver < threshold {
+			ver = threshold
+		}
+		c14SetRow(cp.backend, table, cp.backend.Table(table), idx, ver, -1)
+		vers[idx].Store(ver)
+	})
+	w.count("mutation:waited for")
+	for range parallel {
+		ans := <-answers
+		if ans.err != nil {
+			w.malformed("%s: %s", kind, ans.err.Error())
+
+			continue
+		}
+		w.count("query:" + kind)
+		query := &c14Query{kind: kind, text: text, width: width, single: true, waitKey: key, threshold: threshold, waitSeen: -1}
+		w.checkAnswer(query, ans.code, ans.body, seen)
+		after := cp.disturb.Load()
+		if ans.code != 200 || disturbed%2 == 1 || after != disturbed {
+			w.count("wait: not recorded (backend made to fail meanwhile / all backends down)")
+
+			continue
+		}
+		w.addWaitObs(ans.elapsed.Milliseconds(), threshold, query.waitSeen, kind+" "+key)
+	}
+}
+
+func (w *c14World) addWaitObs(elapsed, threshold, served int64, what string) {
+	w.mu.Lock()
+	defer w.mu.Unlock()
+	w.res.WaitTotal++
+	early := elapsed+c14WaitMarginMs < c14WaitTimeoutMs
+	switch {
+	case served < 0:
+		w.res.Hist["wait: backend listed as failed"]++
+	case early:
+		w.res.Hist["wait: answered before the timeout"]++
+	default:
+		w.res.Hist["wait: timed out"]++
+	}
+	// durations in steps of 100 ms: distinct observations, not distinct milliseconds
+	obs := []int64{elapsed / 100 * 100, c14WaitTimeoutMs, c14WaitMarginMs, threshold, served}
+	if !early {
+		obs[0] = c14WaitTimeoutMs
+	}
+	key := c14Key(obs)
+	if w.waitSeen[key] {
+		return
+	}
+	w.waitSeen[key] = true
+	if served < 0 || !early || served >= threshold {
+		w.waitGood = append(w.waitGood, obs)
+
+		return
+	}
+	w.waitBad = append(w.waitBad, obs)
+	if len(w.res.WaitBad) < 8 {
+		w.res.WaitBad = append(w.res.WaitBad, fmt.Sprintf("%s: answered after %d ms (WaitTimeout %d ms) with version %d, WaitCondition: current_attempt >= %d",
+			what, elapsed, c14WaitTimeoutMs, served, threshold))
+	}
+}
+
 func (w *c14World) client(num int, kinds []string, rnd *vRand, wg *sync.WaitGroup) {
 	defer wg.Done()
 	seen := &c14Seen{last: map[string]int64{}}
 	for step := 0; time.Now().Before(w.deadline); step++ {
 		kind := kinds[step%len(kinds)]
 		if w.sc.Epochs && c14PartialKinds[kind] {
+			kind = "hosts"
+		}
+		if kind == "waitrealhost" || kind == "waitrealsvc" {
+			if time.Until(w.deadline) > 900*time.Millisecond {
+				w.waitReal(kind, rnd, seen)
+
+				continue
+			}
 			kind = "hosts"
 		}
 		query := w.buildQuery(kind, rnd)
@@ -1472,7 +1628,7 @@ func c14WorkerMain(args []string) int {
 	InitLogging(&Config{LogLevel: verifEnv("VERIF_LOGLEVEL", "error"), LogFile: "stderr"})
 
 	world := &c14World{sc: sc, ctx: context.Background(), vecSeen: map[string]bool{}, setSeen: map[string]bool{},
-		statsSeen: map[string]bool{}, sumsSeen: map[string]bool{}, listSeen: map[string]bool{}, res: &c14Result{Hist: map[string]int{}}}
+		statsSeen: map[string]bool{}, sumsSeen: map[string]bool{}, listSeen: map[string]bool{}, waitSeen: map[string]bool{}, res: &c14Result{Hist: map[string]int{}}}
 	for _, kinds := range sc.Clients {
 		for _, kind := range kinds {
 			if c14PartialKinds[kind] {
@@ -1604,6 +1760,16 @@ func (w *c14World) writeResult(path string) {
 			break
 		}
 		res.SetVecs = append(res.SetVecs, vec)
+	}
+	res.WaitObs = append([][]int64{}, w.waitBad...)
+	if len(res.WaitObs) > 60 {
+		res.WaitObs = res.WaitObs[:60]
+	}
+	for _, obs := range w.waitGood {
+		if len(res.WaitObs) >= capVecs {
+			break
+		}
+		res.WaitObs = append(res.WaitObs, obs)
 	}
 	res.ListObs = append([][][]int64{}, w.listBad...)
 	if len(res.ListObs) > 60 {
